@@ -91,6 +91,7 @@ structure FoldFacts (W : World) (miss : Bool) (n : Name) (params : Params) (fds 
   itPerm : (deepTagNames (W.inner f) evsIn).Perm (W.IT f.eid)
   keysIn : KeysOK (W.inner f) evsIn
   toVid : f.toVid = f.eid + 1
+  ndIn : (evsIn.map evVid).Nodup
 
 mutual
 def NodeCert (W : World) (miss : Bool) : QNode → Vid → List Ev → List Stage → List Ev → Prop
